@@ -274,8 +274,17 @@ def rule_m2(repo, res):
     ci = repo.cls(CONTAINER)
     pe = PathEffects(repo, items, dal, set(ci.methods))
     n_paired = 0
-    for name, fn in ci.methods.items():
+    # each mutator is read with its private helpers in place (a helper that writes one representation is half of its
+    # caller's paired write); a private helper is a unit of its own only where a call to it could not be read in place
+    fulls = {name: repo.full(CONTAINER, name) for name in ci.methods}
+    is_private = lambda nm: nm.startswith("_") and not nm.startswith("__")
+    still_called = {n.func.attr for nm, f_ in fulls.items() if not is_private(nm) for n in ast.walk(f_)
+                    if isinstance(n, ast.Call) and isinstance(n.func, ast.Attribute) and isinstance(n.func.value, ast.Name)
+                    and n.func.value.id == "self" and is_private(n.func.attr)}
+    for name, fn in fulls.items():
         if name == "__init__":
+            continue
+        if is_private(name) and name not in still_called:
             continue
         verdicts = {}
         for eff, done in pe.paths(fn.body, set()):
